@@ -669,8 +669,12 @@ func runC02(c *vh.Case, spec c02Spec) ([]c02Resp, map[int]int) {
 				col.absorb(append([]byte(nil), sc.Bytes()...), -1)
 			}
 		}()
+		// how this peer ends its lines: blanks before the newline are insignificant whitespace to JSON, and the message
+		// in front of them is as well-formed as without them
+		eol := []string{"\n", "\n", "\n", " \n", "\r\n", " \r\n", "\t\n"}[c.Index%7]
+		c.Seen("line_endings", fmt.Sprintf("%q", eol))
 		send := func(s string) bool {
-			_, err := cw.Write([]byte(s + "\n"))
+			_, err := cw.Write([]byte(strings.ReplaceAll(s, "\n", eol) + eol))
 			return err == nil
 		}
 		for i, p := range spec.Payloads {
